@@ -49,18 +49,67 @@ theorem mem_markFired_of_mem {q : List Entry} {e : Nat} {en : Entry} (h : en ∈
       exact List.mem_iff_getElem.2 ⟨k, by simpa using hk, by simp [List.getElem_set, Ne.symm hke]⟩
   · exact ⟨en, h, rfl, rfl⟩
 
-theorem spawn_hasTask {y : Sys} (p : Nat) (k : Kind) (h : HasTaskInv y) : HasTaskInv (spawn y p k) := by
-  intro w
-  have hw := h w
-  unfold spawn
-  split <;> try exact hw
-  all_goals (repeat' split)
-  all_goals (first
-    | (simpa using hw)
-    | (intro hs
-       obtain ⟨en, hm, e1, e2⟩ := hw (by simpa using hs)
-       obtain ⟨en', hm', f1, f2⟩ := mem_markFired_of_mem (e := _) hm
-       exact ⟨en', by simpa using hm', by rw [f1, e1], by rw [f2, e2]⟩))
+theorem spawn_pendingTask {y : Sys} (p : Nat) (k : Kind) (h : PendingTaskInv y) : PendingTaskInv (spawn y p k) := by
+  intro w hw
+  by_cases hidle : y.procs p = .idle
+  · have keep : ∀ p0 e, (y.procs p0 = .tCheck e ∨ y.procs p0 = .tClear e) → ∀ v, (upd y.procs p v) p0 = y.procs p0 := by
+      intro p0 e hp0 v
+      have : p0 ≠ p := by
+        intro hpp; subst hpp; rw [hidle] at hp0; rcases hp0 with h1 | h1 <;> cases h1
+      simp [upd, this]
+    cases k with
+    | gen res =>
+      have e0 : spawn y p (.gen res) = { y with procs := upd y.procs p (.gRead res false), born := upd y.born p y.st.clears } := by
+        simp [spawn, hidle]
+      rw [e0] at hw ⊢
+      obtain ⟨e, en, hq, hc, he, hpend⟩ := h w hw
+      refine ⟨e, en, hq, hc, he, ?_⟩
+      rcases hpend with hf | ⟨p0, hp0⟩
+      · exact Or.inl hf
+      · exact Or.inr ⟨p0, by simp only; rw [keep p0 e hp0]; exact hp0⟩
+    | update b =>
+      have e0 : spawn y p (.update b) = { y with procs := upd y.procs p (.uSet b) } := by simp [spawn, hidle]
+      rw [e0] at hw ⊢
+      obtain ⟨e, en, hq, hc, he, hpend⟩ := h w hw
+      refine ⟨e, en, hq, hc, he, ?_⟩
+      rcases hpend with hf | ⟨p0, hp0⟩
+      · exact Or.inl hf
+      · exact Or.inr ⟨p0, by simp only; rw [keep p0 e hp0]; exact hp0⟩
+    | timer e' =>
+      cases hq' : y.st.queue[e']? with
+      | none =>
+        have e0 : spawn y p (.timer e') = y := by simp [spawn, hidle, hq']
+        rw [e0] at hw ⊢; exact h w hw
+      | some en' =>
+        by_cases hf' : en'.fired = true
+        · have e0 : spawn y p (.timer e') = y := by simp [spawn, hidle, hq', hf']
+          rw [e0] at hw ⊢; exact h w hw
+        · have hlt : e' < y.st.queue.length := by
+            rcases Nat.lt_or_ge e' y.st.queue.length with h' | h'
+            · exact h'
+            · rw [List.getElem?_eq_none h'] at hq'; cases hq'
+          have hm : markFired y.st.queue e' = y.st.queue.set e' { en' with fired := true } := by
+            unfold markFired; rw [hq']
+          have e0 : spawn y p (.timer e') =
+              { y with st := { y.st with queue := y.st.queue.set e' { en' with fired := true } },
+                       procs := upd y.procs p (.tCheck e') } := by
+            unfold spawn; simp only [hidle, hq', hm]; simp [hf']
+          rw [e0] at hw ⊢
+          obtain ⟨e, en, hq, hc, he, hpend⟩ := h w hw
+          by_cases hee : e = e'
+          · subst hee
+            rw [hq'] at hq; cases hq
+            refine ⟨e, { en' with fired := true }, by simp [List.getElem?_set, hlt], hc, he, Or.inr ⟨p, Or.inl (by simp)⟩⟩
+          · refine ⟨e, en, by simp [List.getElem?_set, Ne.symm hee, hq], hc, he, ?_⟩
+            rcases hpend with hf | ⟨p0, hp0⟩
+            · exact Or.inl hf
+            · exact Or.inr ⟨p0, by simp only; rw [keep p0 e hp0]; exact hp0⟩
+  · have e0 : spawn y p k = y := by
+      unfold spawn; split
+      · rename_i hh; exact absurd hh hidle
+      · rfl
+    rw [e0] at hw ⊢; exact h w hw
+
 
 theorem spawn_mutex {y : Sys} (p : Nat) (k : Kind) (h : MutexInv y) : MutexInv (spawn y p k) := by
   intro q
@@ -184,6 +233,18 @@ theorem spawn_notify {y : Sys} (p : Nat) (k : Kind) (h : NotifyInv y) : NotifyIn
     | (subst hqp; simp_all [notifyMark]; done)
     | (simp_all [notifyMark]; done))
 
+theorem spawn_roots {y : Sys} (p : Nat) (k : Kind) (h : RootsInv y) : RootsInv (spawn y p k) := by
+  obtain ⟨hw, hpr⟩ := h
+  unfold spawn
+  split <;> try exact ⟨hw, hpr⟩
+  all_goals (repeat' split)
+  all_goals (refine ⟨by simpa using hw, fun q => ?_⟩)
+  all_goals (have hq := hpr q)
+  all_goals (by_cases hqp : q = p)
+  all_goals (first
+    | (subst hqp; simp_all [procRootsOk]; done)
+    | (simp_all [procRootsOk]; done))
+
 /-- All invariants together. -/
 structure Inv (y : Sys) : Prop where
   mutex : MutexInv y
@@ -196,7 +257,8 @@ structure Inv (y : Sys) : Prop where
   queue : QueueInv y
   sched : SchedInv y
   notify : NotifyInv y
-  hasTask : HasTaskInv y
+  pendingTask : PendingTaskInv y
+  roots : RootsInv y
 
 theorem inv_init (r J : Frac) : Inv (Sys.init r J) where
   mutex := by intro q; simp [Sys.init, holds]
@@ -209,7 +271,8 @@ theorem inv_init (r J : Frac) : Inv (Sys.init r J) where
   queue := by simp [QueueInv, Sys.init]
   sched := by constructor <;> simp [Sys.init, procSched]
   notify := by intro q m; simp [Sys.init, notifyMark]
-  hasTask := by intro w; simp [Sys.init]
+  pendingTask := by intro w; simp [Sys.init]
+  roots := by constructor <;> simp [Sys.init, procRootsOk]
 
 theorem inv_step {y : Sys} (p : Nat) (i : Input) (h : Inv y) : Inv (step y p i) where
   mutex := step_mutex p i h.mutex
@@ -222,7 +285,8 @@ theorem inv_step {y : Sys} (p : Nat) (i : Input) (h : Inv y) : Inv (step y p i) 
   queue := step_queue p i h.queue
   sched := step_sched p i h.sched
   notify := step_notify p i h.notify
-  hasTask := step_hasTask p i h.hasTask
+  pendingTask := step_pendingTask p i h.pendingTask
+  roots := step_roots p i h.roots
 
 theorem inv_spawn {y : Sys} (p : Nat) (k : Kind) (h : Inv y) : Inv (spawn y p k) where
   mutex := spawn_mutex p k h.mutex
@@ -235,7 +299,8 @@ theorem inv_spawn {y : Sys} (p : Nat) (k : Kind) (h : Inv y) : Inv (spawn y p k)
   queue := spawn_queue p k h.queue
   sched := spawn_sched p k h.sched
   notify := spawn_notify p k h.notify
-  hasTask := spawn_hasTask p k h.hasTask
+  pendingTask := spawn_pendingTask p k h.pendingTask
+  roots := spawn_roots p k h.roots
 
 theorem inv_apply {y : Sys} (a : Act) (h : Inv y) : Inv (apply y a) := by
   cases a with
